@@ -5,6 +5,7 @@
 package main
 
 import (
+	"time"
 	"errors"
 	"encoding/json"
 	"flag"
@@ -45,6 +46,9 @@ type Prop struct {
 	// RaceKinds: when the harness runs under the race detector (VH_RACE=1) only cases whose Kind has one
 	// of these prefixes are executed (nil = all): the sequential families have nothing to race with
 	RaceKinds []string
+	// CaseTimeout: a case that has not returned after this long is reported as a failing input
+	// ("never returned": deadlock or unbounded loop in the library); default 180 s
+	CaseTimeout time.Duration
 }
 
 var props = map[string]*Prop{}
@@ -173,7 +177,26 @@ func main() {
 		cur = nil
 	}
 	for i, c := range cases {
-		res, err := p.Run(c)
+		var res Result
+		var err error
+		{
+			to := p.CaseTimeout
+			if to == 0 {
+				to = 180 * time.Second
+			}
+			type rr struct {
+				r Result
+				e error
+			}
+			ch := make(chan rr, 1)
+			go func() { r, e := p.Run(c); ch <- rr{r, e} }()
+			select {
+			case x := <-ch:
+				res, err = x.r, x.e
+			case <-time.After(to):
+				err = implViolation("the case did not return within %v: a call into the library never returns (deadlock or unbounded loop)", to)
+			}
+		}
 		if err != nil {
 			// On the unchanged library no Run function returns an error (every check is green), so an
 			// error here means the library refused or mishandled an input the harness built as valid,
